@@ -118,9 +118,13 @@ func ClassifyReturns(fn *ssa.Function) []ReturnInfo {
 		return nil
 	}
 	cache := map[*ssa.Alloc]func(ssa.Instruction) []ssa.Value{}
+	dead := DeadBlocks(fn)
 	for _, b := range fn.Blocks {
 		if fn.Recover != nil && b == fn.Recover {
 			continue
+		}
+		if dead[b] {
+			continue // reachable only through a branch on a constant condition
 		}
 		n := len(b.Instrs)
 		if n == 0 {
